@@ -507,9 +507,7 @@ def dup_entry(coll, kinds, container="tuple"):
         data = "vec![" + ", ".join(names) + "]"
     L.append("let data = %s;" % data)
     mask = " | ".join("bit(id%s(%s))" % (k.lower(), n) for n, k in zip(names, kinds))
-    L.append("let ops0 = w().ops.get();")
     L.append("let r = %s;" % ctor(coll, "data"))
-    L.append("vcheck!(w().ops.get() == ops0, M_BLOCKING_IN_TRY);")
     L.append("vcheck!(r.is_none() == dup, M_DUP_VERDICT);")
     L.append("if let Some(c) = r {")
     L.append("\tvreach!(1);")
@@ -619,14 +617,14 @@ def gen_dup(tier):
 # C08: one arrangement-independent acquisition order
 # ------------------------------------------------------------------------------------------
 ORDER_HELPERS = """
-/// blocking acquisitions recorded in the world log from index `from`, as lock ids
+/// acquisitions (blocking, or successful try) recorded in the world log from index `from`, as lock ids
 fn acq_seq(from: usize, out: &mut [u8; 8]) -> usize {
 	let mut n = 0;
 	let mut i = from;
 	while i < w().log_len.get() {
 		let e = w().log[i].get();
 		let kind = (e >> 8) as u32;
-		if (kind == K_LOCK_X || kind == K_LOCK_S) && n < 8 {
+		if (kind == K_LOCK_X || kind == K_LOCK_S || kind == K_TRY_X || kind == K_TRY_S) && n < 8 {
 			out[n] = (e & 0xff) as u8;
 			n += 1;
 		}
@@ -745,7 +743,8 @@ def order_entry(ca, ka, cb, kb, mode="lock", nested_a=None, nested_b=None, owned
     L.append("let na2 = acq_seq(mark2, &mut sa2);")
     L.append("vcheck!(na == %d && nb == %d, M_NOT_ALL_HELD);" % (len(ka), len(kb) + (2 if owned else 0)))
     L.append("vcheck!(consistent(&sa, na, &sb, nb), M_ORDER);")
-    L.append("vcheck!(increasing_universe(&sa, na) && increasing_universe(&sb, nb), M_ORDER);")
+    # (ascending address order is what the code does today, but the property only asks for ONE common order:
+    #  it is not demanded here)
     L.append("vcheck!(same_seq(&sa, na, &sa2, na2), M_ORDER);")
     if owned:
         L.append("let p6 = pos(&sb, nb, 6); let p7 = pos(&sb, nb, 7);")
@@ -781,7 +780,6 @@ def order_ownedref_entry(fields, mode):
     n = len(fields)
     L.append("vcheck!(na == %d && nb == %d && nc == %d && ne == %d, M_NOT_ALL_HELD);" % (n, n, n, n))
     L.append("vcheck!(consistent(&sa, na, &sb, nb) && consistent(&sa, na, &sc, nc) && consistent(&sb, nb, &sc, nc) && consistent(&se, ne, &sb, nb), M_ORDER);")
-    L.append("vcheck!(increasing_universe(&sa, na) && increasing_universe(&sb, nb) && increasing_universe(&sc, nc) && increasing_universe(&se, ne), M_ORDER);")
     L.append("vcheck!(!w().held_any(), M_HELD_AFTER_ERR);")
     L.append("vreach!(3);")
     nm = "ord_ownedref_%s__%s" % ("".join(fields), mode)
@@ -1254,7 +1252,6 @@ def drop_entries(tier):
     for kind, ctor_new in (("owned", "OwnedLockCollection::new"), ("retry", "RetryingLockCollection::new")):
         add("drop_%s_get_mut" % kind, ["let mut c = %s(%s);" % (ctor_new, tuple3),
                                       "{ let t = c.get_mut(); t.0.val = v0; t.1.val = v1; t.2.val = v2; }",
-                                      "vcheck!(w().ops.get() == 0, M_BLOCKING_IN_TRY);",
                                       "{ let g = c.lock(key()); vcheck!(g.0.val == v0 && g.1.val == v1 && g.2.val == v2, M_DATA); }",
                                       "vcheck!(none_dropped(), M_DROP_COUNT);"], 3)
     # checked constructors rejecting their input: referenced locks stay alive, owned members are dropped once
@@ -1325,7 +1322,7 @@ def gen_drop(tier):
 # ------------------------------------------------------------------------------------------
 NA_CHECK = ("vcheck!(w().blocking_ops.get() == b0 && w().wait_events.get() == 0, M_BLOCKING_IN_TRY); "
             "vcheck!(w().snapshot() == snap0, M_STATE_CHANGED); vcheck!(w().bad_release.get() == 0, M_BAD_RELEASE);")
-NA_NOOPS = "vcheck!(w().ops.get() == ops0, M_BLOCKING_IN_TRY);"
+NA_NOOPS = ""  # (zero raw operations would be more than the statement asks)
 
 
 def na_ops(shape, inside_hold):
